@@ -22,8 +22,8 @@ KIND_PROPS = {
     "mostlinked": ["C20"],
     "ids": ["C12"],
 }
-EDIT_OPS = {"create", "delete", "addprefix", "rmprefix", "moveprefix", "rmrule"}
-REPORT_OPS = {"addpage", "addpages", "addlinks", "batch", "addrule", "create"}
+EDIT_OPS = {"create", "delete", "deleteu", "addprefix", "rmprefix", "moveprefix", "rmrule"}
+REPORT_OPS = {"addpage", "addpages", "addlinks", "batch", "addrule", "addruleram", "create"}
 
 
 class Finding(object):
